@@ -162,5 +162,6 @@ theorem setSignal_inv {p : Prog} {s : State} (h : InvR p s) {x : Nat} {v0 : Int}
   · intro w e he
     rw [seenE] at he
     exact Nat.le_trans (h.verLe w e he) (verMono e.1)
+  · intro w a ha; rw [srcE] at ha; rw [kE]; exact h.srcData w a ha
 
 end Leptos.Reactive
